@@ -153,15 +153,15 @@ def solver_branch_stats(im, outs):
 def gen_evolvent_lines(r, tier):
     """image / inverse / integer-layer commands; returns (lines, meta, coverage)"""
     lines, meta = [], []
-    # exhaustive node / numbr tables (whole domain, N = 2..5)
-    for n in (2, 3, 4, 5):
+    # exhaustive node / numbr tables (whole domain, N = 2..7)
+    for n in (2, 3, 4, 5, 6, 7):
         for d in range(2 ** n):
             lines.append(f"ev.node {n} {d}"); meta.append(("node", n, d))
         for us in itertools.product((1, -1), repeat=n):
             lines.append(f"ev.numbr {n} " + " ".join(str(u) for u in us)); meta.append(("numbr", n, us))
     # exhaustive cells for small N*m: every subinterval, left end, an interior point, and the inverse of the image
     lim = 12 if tier == "quick" else 16
-    for n in (2, 3, 4, 5):
+    for n in (2, 3, 4, 5, 6, 7):
         for m in range(1, 9):
             if n * m > lim:
                 continue
@@ -173,12 +173,12 @@ def gen_evolvent_lines(r, tier):
             lines.append(f"ev.image {n} {m} {fs2h(lo)} {fs2h(hi)} {f2h(1.0)}"); meta.append(("image", n, m, 1.0))
     # integer model vs implementation on the cube (digits -> cell), random digits
     for _ in range(300 if tier == "quick" else 3000):
-        n = r.randint(2, 5); m = r.randint(1, 50 // n)
+        n = r.randint(2, 7); m = r.randint(1, 50 // n)
         ds = [r.randrange(2 ** n) for _ in range(m)]
         lines.append(f"ev.cubeY {n} " + " ".join(map(str, ds))); meta.append(("cubeY", n, m, ds))
     # random (N, m, x, box) incl. N = 1, x near 1, x = 1, dyadic x
     for _ in range(2500 if tier == "quick" else 20000):
-        n = r.randint(1, 5); m = r.randint(1, 50 // n)
+        n = r.randint(1, 7); m = r.randint(1, 50 // n)
         lo, hi = gen_box(r, n)
         u = r.random()
         if u < 0.1:
@@ -212,7 +212,7 @@ def corr_evolvent(r, tier):
     for mt in meta:
         kinds[mt[0]] = kinds.get(mt[0], 0) + 1
     return {"evaluations": len(lines), "distinct": len(set(lines)), "kinds": kinds, "mismatches": bad,
-            "exhaustive_parts": "__CalculateNode/__CalculateNumbr on their whole domain for N=2..5; every subinterval of every (N,m) with N*m <= %d" % (12 if tier == "quick" else 16),
+            "exhaustive_parts": "__CalculateNode/__CalculateNumbr on their whole domain for N=2..7; every subinterval of every (N,m) with N*m <= %d" % (12 if tier == "quick" else 16),
             "samples": [{"command": lines[i], "output": mo[i]} for i in (0, len(lines) // 2, len(lines) - 1)]}
 
 
